@@ -100,6 +100,8 @@ impl SyncTrackerRes {
             debug!("Could not decode component {:?} from network, ignoring it", name);
             return false;
         };
+        // the change detector announces a SkinnedMesh under the type path of its wire form
+        let announced_name = name.clone();
         let name = if (*component_data).type_id() == TypeId::of::<SkinnedMeshSyncMapper>() {
             SkinnedMesh::default().reflect_type_path().to_string()
         } else {
@@ -133,7 +135,7 @@ impl SyncTrackerRes {
         let previous_value = reflect_component.reflect(world.entity(e_id));
         let change_id = ComponentChangeId {
             id: uuid,
-            name: name.to_string(),
+            name: announced_name,
         };
         if world
             .resource::<SyncTrackerRes>()
